@@ -481,3 +481,9 @@ impl Decode for UnitDec { fn run(&self, b: u8) -> u32 { b as u32 ^ 0x55 } }
 impl Decode for UnitPair { fn run(&self, b: u8) -> u32 { self.0.run(b) + 1000 } }
 fn run_gen<D: Decode>(d: &D, b: u8) -> u32 { d.run(b) }
 pub fn q_zst_locals(x: u8, y: u8) -> u32 { let a = UnitDec; let p = UnitPair(UnitDec, ()); let r = &a; if y & 1 == 0 { run_gen(r, x) } else { run_gen(&p, x) } }
+struct Cir(u8);
+impl Zshape for Cir { fn area(&self, k: u8) -> u32 { k as u32 * self.0 as u32 + 1 } }
+const SHAPES: [&dyn Zshape; 3] = [&Zsq, &Ztri, &Cir(7)];
+static SHAPES_S: [(u8, &(dyn Zshape + Sync)); 2] = [(4, &Ztri), (9, &Zsq)];
+impl Zhint for Cir {}
+pub fn q_dyn_const_table(x: u8, y: u8) -> u32 { SHAPES[(y % 3) as usize].area(x) + SHAPES_S.iter().find(|(k, _)| *k == x & 15).map_or(5, |(_, s)| s.area(y)) * 0x1_0000 }
